@@ -1,6 +1,9 @@
 mod rng;
 mod coqfmt;
+mod e2e;
+mod leg_c14;
 mod leg_c17;
+mod dbg_tmp;
 
 fn main() {
     let args: Vec<String> = std::env::args().collect();
@@ -11,6 +14,9 @@ fn main() {
     let rest = &args[2..];
     let code = match args[1].as_str() {
         "c17-unit" => leg_c17::run(rest),
+        "c14-unit" => leg_c14::run_unit(rest),
+        "c14-e2e" => leg_c14::run_e2e(rest),
+        "dbg" => dbg_tmp::run(rest),
         other => {
             eprintln!("unknown leg {other}");
             2
